@@ -186,7 +186,99 @@ def bounded_thresholded_retrieval(p):
   mt = [[0.9, 0.4], [0.3]]; mp = [[0.9, 0.0, 0.4], [0.0, 0.3]]
   got = [list(np.asarray(r.result()[k], dtype=float)) for k in ('precision', 'recall', 'f1_score')]
   S.check(mc.close(got, [list(x) for x in counts([(mt, mp, ypr)])], 1e-6), dict(what='built-in matcher'), f'with the built-in matcher {got}; counting gives {counts([(mt, mp, ypr)])}', cls='matcher')
+  # thresholds given in any order; `metric@t` for a configured threshold t is the metric counted at t
+  import itertools as _it
+  ths = (0.125, 0.25, 0.5, 0.75)
+  def at(batches, t):
+    kt = [x for mt_, _, _ in batches for row in mt_ for x in row if x >= 0]
+    kp = [x for _, mp_, _ in batches for row in mp_ for x in row if x >= 0]
+    allp = [x for _, _, pr in batches for row in pr for x in row]
+    prec = mc.sdiv(sum(1 for x in kp if x > t), sum(1 for x in allp if x > t))
+    rec = mc.sdiv(sum(1 for x in kt if x > t), len(kt))
+    return dict(precision=prec, recall=rec, f1_score=mc.sdiv(2 * prec * rec, prec + rec))
+  for order in _it.permutations(ths):
+    names = [f'{m}@{t}' for m in ('precision', 'recall', 'f1_score') for t in ths]
+    r = agg_ret.ThresholdedRetrieval(thresholds=order, metrics=['precision', 'recall'] + names)
+    for mt_, mp_, pr in (b1, b2):
+      r.add(y_prob=pr, matched_true_prob=mt_, matched_pred_prob=mp_)
+    res = r.result()
+    rep = [float(x) for x in np.asarray(res['thresholds'], dtype=float)]
+    bad = []
+    for i, t in enumerate(rep):       # the per-threshold arrays are aligned with the thresholds reported next to them
+      for m in ('precision', 'recall'):
+        if not mc.close(float(np.asarray(res[m], dtype=float)[i]), at([b1, b2], t)[m], 1e-6):
+          bad.append((m, t, float(np.asarray(res[m], dtype=float)[i]), at([b1, b2], t)[m]))
+    for nme in names:
+      m, t = nme.split('@')
+      if not mc.close(float(res[nme]), at([b1, b2], float(t))[m], 1e-6):
+        bad.append((nme, float(res[nme]), at([b1, b2], float(t))[m]))
+    if not S.check(not bad, dict(what='threshold order', thresholds=list(order)), f'ThresholdedRetrieval(thresholds={order}): (metric, got, counted) {bad[:4]}', cls='threshold-order'):
+      break
   return S.result()
+
+
+def _occurrences(text, pat):
+  """overlapping occurrences of the literal string pat in text"""
+  n, i = 0, text.find(pat)
+  while i >= 0:
+    n, i = n + 1, text.find(pat, i + 1)
+  return n
+
+
+def bounded_text_frequency(p):
+  """PatternFrequency / TopKWordNGrams vs their definitions computed from the raw texts: literal (not regex) patterns,
+  overlapping matches, count_duplicate, first-n-gram-only, cleaning and lower-casing, ties in alphabetical order."""
+  from ml_metrics._src.aggregates import text as agg_text
+  S = Search(p, dict(patterns='literal strings incl. regex metacharacters', texts='<= 5 short texts, 1-2 batches', ngrams='n in 1..3, k in 1..4'))
+  texts = ['abc a.c aXc', 'e.g. i.e. e.g.', 'a|b ab (x) [x] x', 'xyxyx mmmm', 'a+b a*b a?b ^a$ \\d 7', '']
+  patterns = ['a.c', 'e.g.', 'a|b', '(', '[x]', 'xyx', 'mm', 'a+b', 'a*b', '^a$', '\\d', '.', 'x']
+  for cd in (True, False):
+    for batches in ([texts], [texts[:3], texts[3:]], [texts[:1], texts[1:]]):
+      got = expect(lambda: _pattern_run(agg_text, patterns, cd, batches))
+      allt = [t for b in batches for t in b]
+      exp = sorted(((pt, sum((_occurrences(t, pt) if cd else int(t.find(pt) >= 0)) for t in allt) / len(allt)) for pt in patterns),
+                   key=lambda x: (-x[1], x[0]))
+      ok = got[0] == 'ok' and [g[0] for g in got[1]] == [e[0] for e in exp] and mc.close([g[1] for g in got[1]], [e[1] for e in exp], 1e-9)
+      if not S.check(ok, dict(metric='PatternFrequency', count_duplicate=cd, batches=len(batches)),
+                     f'PatternFrequency(count_duplicate={cd}) over {len(batches)} batch(es): {got}; literal counting gives {exp}', cls=f'pattern-{cd}'):
+        return S.result()
+  import re as _re
+  wtexts = ['The cat sat. The cat ran!', 'a dog SAT, the cat sat', 'hi', 'The the the cat', 'x1y z_z 9', '']
+  for n in (1, 2, 3):
+    for k in (1, 2, 4):
+      for first in (False, True):
+        for cd in (True, False):
+          for batches in ([wtexts], [wtexts[:2], wtexts[2:]]):
+            def run():
+              m = agg_text.TopKWordNGrams(k=k, n=n, use_first_ngram_only=first, count_duplicate=cd)
+              for b in batches:
+                m.add(b)
+              return [(g, float(f)) for g, f in m.result()]
+            got = expect(run)
+            cnt = {}
+            allt = [t for b in batches for t in b]
+            for t in allt:
+              words = ''.join(ch for ch in t if ch.isascii() and (ch.isalpha() or ch == ' ')).lower().split()
+              if len(words) < n:
+                continue
+              grams = [' '.join(words[:n])] if first else [' '.join(words[i:i + n]) for i in range(len(words) - n + 1)]
+              if not cd and not first:
+                grams = sorted(set(grams))
+              for g in grams:
+                cnt[g] = cnt.get(g, 0) + 1
+            exp = sorted(((g, c / len(allt)) for g, c in cnt.items()), key=lambda x: (-x[1], x[0]))[:k]
+            ok = got[0] == 'ok' and [g[0] for g in got[1]] == [e[0] for e in exp] and mc.close([g[1] for g in got[1]], [e[1] for e in exp], 1e-9)
+            if not S.check(ok, dict(metric='TopKWordNGrams', n=n, k=k, use_first_ngram_only=first, count_duplicate=cd, batches=len(batches)),
+                           f'TopKWordNGrams(k={k}, n={n}, first={first}, count_duplicate={cd}): {got}; definition gives {exp}', cls=f'ngrams-{n}-{first}-{cd}'):
+              return S.result()
+  return S.result()
+
+
+def _pattern_run(agg_text, patterns, cd, batches):
+  m = agg_text.PatternFrequency(patterns=patterns, count_duplicate=cd)
+  for b in batches:
+    m.add(b)
+  return [(g, float(f)) for g, f in m.result()]
 
 
 def _rankings(thorough):
@@ -271,4 +363,153 @@ def bounded_rolling(p):
   pos = [p_ for t, p_ in zip(yt, ypd) if t]; neg = [p_ for t, p_ in zip(yt, ypd) if not t]
   tj = rs.R2Tjur(); tj.add(np.array(yt), np.array(ypd))
   S.check(mc.close(tj.result(), sum(pos) / len(pos) - sum(neg) / len(neg), 1e-9), dict(what='R2Tjur'), f'R2Tjur = {tj.result()}')
+  return S.result()
+
+
+def bounded_one_shot_api(p):
+  """EVERY one-shot function of metrics/classification.py and metrics/retrieval.py returns what the accumulator returns under the
+  metric of the same name (whose value the other stand-ins compare with the textbook definition): documented aliases included."""
+  import inspect
+  S = Search(p, dict(functions='all public one-shot functions', datasets='binary / multiclass samples, ragged rankings, k-lists'))
+  names = [n for n, f in inspect.getmembers(m_cls, inspect.isfunction) if f.__module__ == m_cls.__name__ and not n.startswith('_') and n != 'classification_metrics']
+  data = [('binary', [1, 0, 1, 1, 0, 0, 1], [1, 1, 0, 1, 0, 1, 1], dict(pos_label=1), ['binary', 'micro', 'macro']),
+          ('binary', ['y', 'n', 'y', 'n', 'y'], ['y', 'y', 'n', 'n', 'y'], dict(pos_label='y'), ['binary']),
+          ('multiclass', ['a', 'b', 'c', 'a', 'b'], ['a', 'a', 'c', 'b', 'b'], dict(vocab={'a': 0, 'b': 1, 'c': 2}), ['micro', 'macro'])]
+  for input_type, yt, yp, kw, avgs in data:
+    for avg in avgs:
+      acc = expect(lambda: m_cls.ClassificationAggFn(names, input_type=input_type, average=avg, **kw)(yt, yp))
+      for n in names:
+        one = expect(lambda: getattr(m_cls, n)(yt, yp, input_type=input_type, average=avg, **kw))
+        ok = acc[0] == 'ok' and one[0] == 'ok' and mc.close(one[1], acc[1][n], 1e-9)
+        if not S.check(ok, dict(function=n, input_type=input_type, average=avg), f'classification.{n}(...) = {one}; accumulator metric {n!r} = {acc[1].get(n) if acc[0] == "ok" else acc}', cls=f'cls-{n}'):
+          break
+  rnames = [n for n, f in inspect.getmembers(m_ret, inspect.isfunction) if f.__module__ == m_ret.__name__ and not n.startswith('_') and n != 'topk_retrieval_metrics']
+  yt = [['a'], ['a', 'b'], ['c', 'a', 'e'], ['e']]
+  yp = [['b', 'a'], ['c', 'd', 'a'], ['a', 'b', 'c', 'd', 'e'], ['e', 'd']]
+  for k_list in (None, [1], [1, 3], [2, 5]):
+    acc = expect(lambda: agg_ret.TopKRetrievalAggFn(metrics=rnames, k_list=k_list)(yt, yp))
+    for n in rnames:
+      one = expect(lambda: getattr(m_ret, n)(yt, yp, k_list=k_list))
+      ok = acc[0] == 'ok' and one[0] == 'ok' and mc.close(list(np.asarray(one[1], dtype=float).reshape(-1)), list(np.asarray(acc[1][n], dtype=float).reshape(-1)), 1e-9)
+      if not S.check(ok, dict(function=n, k_list=k_list), f'retrieval.{n}(k_list={k_list}) = {one}; accumulator metric {n!r} = {acc[1].get(n) if acc[0] == "ok" else acc}', cls=f'ret-{n}'):
+        break
+  # documented aliases
+  al = [('ppv', 'precision'), ('positive_predictive_value', 'precision'), ('sensitivity', 'recall'), ('tpr', 'recall'), ('tnr', 'specificity'),
+        ('fpr', 'fall_out'), ('fnr', 'miss_rate'), ('nvp', 'negative_prediction_value')]
+  input_type, y1, y2, kw, _ = data[0]
+  for a, b in al:
+    va, vb = expect(lambda: getattr(m_cls, a)(y1, y2, **kw)), expect(lambda: getattr(m_cls, b)(y1, y2, **kw))
+    S.check(va[0] == 'ok' and vb[0] == 'ok' and mc.close(va[1], vb[1], 1e-12), dict(alias=a, of=b), f'{a} = {va} but {b} = {vb}', cls=f'alias-{a}')
+  for a, b in (('ppv', 'precision'), ('positive_predictive_value', 'precision'), ('sensitivity', 'recall'), ('tpr', 'recall')):
+    va, vb = expect(lambda: getattr(m_ret, a)(yt, yp, k_list=[1, 3])), expect(lambda: getattr(m_ret, b)(yt, yp, k_list=[1, 3]))
+    S.check(va[0] == 'ok' and vb[0] == 'ok' and mc.close(list(va[1]), list(vb[1]), 1e-12), dict(alias=a, of=b, api='retrieval'), f'retrieval {a} = {va} but {b} = {vb}', cls=f'ralias-{a}')
+  return S.result()
+
+
+def bounded_signals(p):
+  """signals/: flip masks, cross entropies, top-k accuracy vs their definitions on small arrays."""
+  from ml_metrics._src.signals import flip_masks, cross_entropy, topk_accuracy
+  S = Search(p, dict(arrays='all pairs over 5 values, 3 thresholds', probabilities='grids in (0,1)', classes='<= 4'))
+  vals = [0.0, 0.2, 0.5, 0.7, 1.0]
+  for t in (0.2, 0.5, 0.9):
+    base = np.array([a for a in vals for _ in vals]); model = np.array([b for _ in vals for b in vals])
+    exp = dict(binary_flip_mask=[int((a > t) != (b > t)) for a, b in zip(base, model)],
+               neg_to_pos_flip_mask=[int(a <= t < b) for a, b in zip(base, model)],
+               pos_to_neg_flip_mask=[int(a > t >= b) for a, b in zip(base, model)])
+    for name, e in exp.items():
+      got = expect(lambda: [int(x) for x in getattr(flip_masks, name)(base, model, threshold=t)])
+      if not S.check(got == ('ok', e), dict(fn=name, threshold=t), f'{name}(threshold={t}) = {got}; definition {e}', cls=name):
+        break
+  for a in (0, 1):
+    for b in (0, 1):
+      got = (expect(lambda: int(flip_masks.binary_flip_mask(a, b))), expect(lambda: bool(flip_masks.neg_to_pos_flip_mask(a, b))), expect(lambda: bool(flip_masks.pos_to_neg_flip_mask(a, b))))
+      e = (('ok', int(a != b)), ('ok', (not a) and bool(b)), ('ok', bool(a) and not b))
+      S.check(got == e, dict(fn='flip masks on labels', base=a, model=b), f'labels ({a},{b}): {got}; definition {e}', cls='labels')
+  grid = [0.1, 0.3, 0.5, 0.9]
+  for yt in itertools.product([0, 1], repeat=3):
+    for ypr in itertools.product(grid, repeat=3):
+      e = -sum(y * math.log(q) + (1 - y) * math.log(1 - q) for y, q in zip(yt, ypr)) / 3
+      got = expect(lambda: float(cross_entropy.binary_cross_entropy(np.array(yt), np.array(ypr))))
+      if not S.check(got[0] == 'ok' and mc.close(got[1], e, 1e-9), dict(fn='binary_cross_entropy', y_true=list(yt), y_pred=list(ypr)), f'binary_cross_entropy = {got}; definition {e}', cls='bce'):
+        break
+      tot = sum(ypr)
+      e2 = -sum(y * math.log(q / tot) for y, q in zip(yt, ypr))
+      got = expect(lambda: float(cross_entropy.categorical_cross_entropy(np.array(yt), np.array(ypr))))
+      if not S.check(got[0] == 'ok' and mc.close(got[1], e2, 1e-9), dict(fn='categorical_cross_entropy', y_true=list(yt), y_pred=list(ypr)), f'categorical_cross_entropy = {got}; definition {e2}', cls='cce'):
+        break
+  got = expect(lambda: cross_entropy.binary_cross_entropy(np.array([0, 2]), np.array([0.5, 0.5])))
+  S.check(got == ('raise', 'ValueError'), dict(fn='binary_cross_entropy', what='labels other than 0/1 are rejected'), f'labels [0, 2]: {got}', cls='bce-validate')
+  scores = [0.1, 0.4, 0.2, 0.3]
+  for perm in itertools.permutations(scores):
+    for w in (1.0, [1.0, 0.5, 2.0, 1.0]):
+      weighted = [s * (w if isinstance(w, float) else w[i]) for i, s in enumerate(perm)]
+      for k in (1, 2, 3):
+        for label in range(4):
+          e = sorted(range(4), key=lambda i: weighted[i])[-k:]
+          if len(set(weighted)) < 4:
+            continue       # ties: the order of argsort is not part of the definition
+          got = expect(lambda: bool(topk_accuracy.topk_accurate(np.array(perm), label, weights=w, k=k)))
+          if not S.check(got == ('ok', label in e), dict(fn='topk_accurate', y_pred=list(perm), label=label, k=k, weights=w), f'topk_accurate = {got}; definition {label in e}', cls='topk'):
+            return S.result()
+  return S.result()
+
+
+def bounded_histograms(p):
+  """Histogram / CalibrationHistogram / Counter vs bucket counting from the raw values: all bins but the right-most are
+  half-open, the right-most includes its upper edge, values outside the range are ignored; several batches."""
+  S = Search(p, dict(values='grids incl. bin edges and out-of-range values', bins='3-5 equal bins, explicit edges', batches='1-2'))
+  def bucket(x, edges):
+    if x < edges[0] or x > edges[-1]:
+      return None
+    for b in range(len(edges) - 1):
+      if edges[b] <= x < edges[b + 1]:
+        return b
+    return len(edges) - 2        # x == last edge
+  vals = [0.0, 0.1, 0.25, 0.5, 0.5, 0.75, 0.99, 1.0, -0.2, 1.3]
+  for bins, rng in ((4, (0, 1)), (5, (0, 1)), (3, (0.0, 0.75)), ((0.0, 0.3, 0.5, 1.0), None)):
+    edges = list(np.linspace(rng[0], rng[1], bins + 1)) if isinstance(bins, int) else list(bins)
+    for batches in ([vals], [vals[:4], vals[4:]], [vals[:1], vals[1:]]):
+      for weighted in (False, True):
+        h = rs.Histogram(range=rng, bins=bins)
+        exp = [0.0] * (len(edges) - 1)
+        for b in batches:
+          w = [1.0 + 0.5 * i for i in range(len(b))] if weighted else None
+          h.add(np.array(b), np.array(w)) if weighted else h.add(np.array(b))
+          for i, x in enumerate(b):
+            k = bucket(x, edges)
+            if k is not None:
+              exp[k] += w[i] if weighted else 1
+        got = expect(lambda: [float(x) for x in h.result().hist])
+        if not S.check(got[0] == 'ok' and mc.close(got[1], exp, 1e-9), dict(metric='Histogram', bins=str(bins), range=str(rng), batches=len(batches), weighted=weighted),
+                       f'Histogram(bins={bins}, range={rng}) over {batches}: {got}; bucket counting {exp}', cls='histogram'):
+          return S.result()
+  labels = [0.0, 1.0, 1.0, 0.0, 1.0, 0.0]
+  preds = [0.1, 0.9, 0.5, 0.25, 1.0, 0.0]
+  for bins in (2, 4, 5):
+    edges = list(np.linspace(0, 1, bins + 1))
+    for batches in ([(labels, preds)], [(labels[:2], preds[:2]), (labels[2:], preds[2:])]):
+      c = m_cls.CalibrationHistogram(bins=bins)
+      n, hl, hp = [0.0] * bins, [0.0] * bins, [0.0] * bins
+      for l, q in batches:
+        c.add(np.array(l), np.array(q))
+        for x in list(l) + list(q):
+          n[bucket(x, edges)] += 1
+        for x in l:
+          hl[bucket(x, edges)] += x
+        for x in q:
+          hp[bucket(x, edges)] += x
+      r = c.result()
+      got = [[float(x) for x in r.num_examples_hist], [float(x) for x in r.labels_hist], [float(x) for x in r.predictions_hist]]
+      if not S.check(mc.close(got, [n, hl, hp], 1e-9), dict(metric='CalibrationHistogram', bins=bins, batches=len(batches)),
+                     f'CalibrationHistogram(bins={bins}): {got}; bucket counting {[n, hl, hp]}', cls='calibration'):
+        return S.result()
+  items = ['a', 'b', 'a', 'c', 'a', 'b', 7, 7]
+  for batches in ([items], [items[:3], items[3:]], [[], items]):
+    c = rs.Counter()
+    for b in batches:
+      c.add(b)
+    exp = {}
+    for x in items:
+      exp[x] = exp.get(x, 0) + 1
+    S.check(dict(c.result()) == exp, dict(metric='Counter', batches=len(batches)), f'Counter over {batches}: {dict(c.result())}; counting {exp}', cls='counter')
   return S.result()
